@@ -727,6 +727,12 @@ int main(int argc, char** argv) {
             // the apps' bulk-asynchronous loop (bfs_push.cpp BFS<async>::go): work, sync<..., async>, until the
             // distributed terminator reports global quiescence
             galois::DGTerminator<unsigned int> dga;
+            // Logical bound on this host's sends in one asynchronous phase: a call only sends when a bit is set; bits
+            // are set by the harness' writes (<= 3 per proxy) and by a reduce that strictly improves a master (at most
+            // once per value ever written to that node; set: once per marked mirror) and are cleared by the send. So
+            // the calls that send are <= 6 x all proxies, each sends <= 2 x (hosts-1) messages. Far beyond that the
+            // substrate re-sends without any update: the phase can never become quiescent.
+            const unsigned long sendBound = 64ul * np * (T.totalProxies + 64);
             do {
               dga.reset();
               if (iterations < c.waves) {
@@ -739,6 +745,21 @@ int main(int argc, char** argv) {
               ++iterations;
               ++O.async_sync_calls;
               progress();
+              if (net.reportSendMsgs() - msgs0 > sendBound) {
+                std::string what = "asynchronous sync keeps sending messages although no value can change any more";
+                if (log) {
+                  H.violation(std::string("C18:sync:async-resends-without-updates:") + redName(F.red),
+                              J().kv("round", rd).kv("field", F.name).kv("write", wlocName(c.W)).kv("read", rlocName(c.R))
+                                  .kv("host", (unsigned)g_rank).kv("messages_sent", (uint64_t)(net.reportSendMsgs() - msgs0))
+                                  .kv("bound", (uint64_t)sendBound).kv("sync_calls", iterations).kv("what", what).str());
+                  fflush(H.out);
+                }
+                // the driver's crash classifier reads this line when another rank than 0 notices
+                fprintf(stderr, "c18_gluon: Assertion `%s' failed (rank %d, field %s, %lu messages > bound %lu)\n", what.c_str(),
+                        g_rank, F.name, (unsigned long)(net.reportSendMsgs() - msgs0), sendBound);
+                fflush(stderr);
+                _exit(4);
+              }
             } while (dga.reduce(sub.get_run_identifier()));
             ++O.async_rounds;
             MPI_Barrier(g_comm); // DTerminationDetector.h: "caller will call getHostBarrier().wait() if required"
